@@ -2,11 +2,21 @@
 import hashlib
 import json
 import random
+import signal
 import time
+
+
+def _on_alarm(signum, frame):
+    raise CaseTimeout()
 
 
 class Inconclusive(Exception):
     """the deciding monitor could not do its job (not a verdict)"""
+
+
+class CaseTimeout(BaseException):
+    """one generated case ran far longer than any case ever does: the shard stops here, keeps
+    what it found so far and is reported as inconclusive (wall-clock is never a verdict)"""
 
 
 def jsonable(obj, depth=0):
@@ -87,9 +97,28 @@ class Ctx:
         self.mech_counts = {}
         self.inconclusive = []
         self.t0 = time.time()
+        self.case_timeout = float((params or {}).get("case_timeout", 60))
+        self._armed_for = None
 
     # -- randomness
+    def _arm(self, i):
+        # a fresh alarm for every new case (main thread only)
+        if i != self._armed_for:
+            self._armed_for = i
+            try:
+                signal.signal(signal.SIGALRM, _on_alarm)
+                signal.setitimer(signal.ITIMER_REAL, self.case_timeout)
+            except (ValueError, OSError):
+                pass
+
+    def disarm(self):
+        try:
+            signal.setitimer(signal.ITIMER_REAL, 0)
+        except (ValueError, OSError):
+            pass
+
     def rng(self, i, salt=""):
+        self._arm(i)
         return random.Random(f"{self.seed}/{self.prop}/{self.shard}/{i}/{salt}")
 
     def rng_key(self, i, salt=""):
